@@ -381,10 +381,16 @@ def plan(tier, seed):
     n = 4 if tier == "quick" else 16
     shards = [{"env": {}, "params": {"time_budget": 70 if tier == "quick" else 700, "current_every": 50}}
               for _ in range(n)]
-    return {"shards": shards, "timeout": 400 if tier == "quick" else 2400}
+    if tier == "thorough":   # the repository's own suite under the icontract class invariant (sampled evaluation)
+        shards.append({"env": {}, "params": {"suite": "inv"}})
+    return {"shards": shards, "timeout": 400 if tier == "quick" else 3000}
 
 
 def run(ctx):
+    if ctx.params.get("suite"):
+        from ..suite import run_suite_under_monitors
+        run_suite_under_monitors(ctx, ctx.params["suite"])
+        return
     rng = ctx.rng
     # (a) exhaustive histories on the small alphabet (no icontract wrapper: the invariant is evaluated explicitly)
     alphabet = small_ops()
